@@ -4,6 +4,7 @@ package main
 // program state (environment + heap + old heap).
 
 import (
+	"os"
 	"fmt"
 	"go/ast"
 	"go/constant"
@@ -154,6 +155,9 @@ func (e *Env) eval(s *SExpr) Val {
 			n = n.with(v.Name, bv)
 		}
 		body := n.eval(s.Body).T()
+		if os.Getenv("GOVC_DEBUG_INV") != "" {
+			fmt.Fprintf(os.Stderr, "QUANT pol=%d guards=%v body=%s kind=%s\n", e.pol, guards, body, s.Body.Kind)
+		}
 		// instantiation hints: forall k.P(k) is equivalent to (forall k.P(k)) /\ P(t) and
 		// exists k.P(k) to (exists k.P(k)) \/ P(t) for any term t; the index terms the code
 		// itself uses are added as instances so that the solvers need not guess them.
@@ -421,6 +425,9 @@ func (fr *Frame) resolveLocal(name string, blk *ssa.BasicBlock, idx int, h *Heap
 		} else if best.block.Dominates(d.block) {
 			best = d
 		}
+	}
+	if os.Getenv("GOVC_DEBUG_INV") != "" {
+		fmt.Fprintf(os.Stderr, "RESOLVE %s in b%d@%d: %d defs\n", name, blk.Index, idx, len(defs)); for _, d := range defs { fmt.Fprintf(os.Stderr, "   def %s = %v (%T) b%d@%d addr=%v\n", d.val.Name(), d.val, d.val, d.block.Index, d.idx, d.isAddr) }
 	}
 	if best == nil {
 		return Val{}, false
@@ -914,6 +921,9 @@ func (e *Env) evalCall(t *ast.CallExpr) Val {
 					fr = &Frame{vc: vc}
 				}
 				has, _ := fr.mapRead(e.heap, mt, m.T(), vc.mapKey(mt.Key(), Val{Typ: mt.Key(), L: k.L}))
+				if os.Getenv("GOVC_DEBUG_INV") != "" {
+					fmt.Fprintf(os.Stderr, "HAS m=%s has=%s\n", m.T(), has)
+				}
 				return boolVal(and(not(eq(m.T(), "0")), has))
 			}
 		}
